@@ -25,6 +25,9 @@ RawBatch == LET n == Pick(1..MaxBatch) IN {RandPoint(i) : i \in 1..n}
 \* a batch that overwrites existing keys (duplicates overwritten later)
 RewriteBatch == LET n == Pick(1..MaxBatch)
                 IN {[Pick(data) EXCEPT !.x = Pick(Vals)] : i \in 1..n}
+\* a batch that gives several series a point at the SAME instant (ties: the order-independent tie-break rules of
+\* min/max/first/last, runs of equal time in raw results)
+TieBatch(t) == {[s |-> s, f |-> "v", t |-> t, x |-> Pick(Vals)] : s \in SeriesIds}
 Dedup(B) == {p \in B : \A q \in B : SameKey(p, q) => p.x <= q.x}
 PointSeq(B) == SortF(B, [p \in B |-> (p.s * 100 + p.t) * 10 + (IF p.f = "v" THEN 0 ELSE 1)])
 
@@ -38,7 +41,7 @@ PredBag == << NoPred, NoPred, NoPred, NoPred, NoPred, NoPred, NoPred,
               [k |-> "t1", op |-> "=", v |-> "a"], [k |-> "t1", op |-> "=", v |-> "b"],
               [k |-> "t1", op |-> "!=", v |-> "a"], [k |-> "t1", op |-> "=", v |-> ""],
               [k |-> "t2", op |-> "=", v |-> "x"], [k |-> "t2", op |-> "!=", v |-> "x"] >>
-FnBag == << "raw", "raw", "count", "sum", "mean", "min", "max", "first", "last", "spread", "median" >>
+FnBag == << "raw", "raw", "raw", "count", "sum", "mean", "min", "max", "first", "last", "first", "last", "spread", "median" >>
 GroupBag == << <<>>, <<>>, <<"t1">>, <<"t1">>, <<"t2">>, <<"t1", "t2">> >>
 
 FieldFor(fn) == IF fn = "raw" THEN PickSeq(<<"v", "v", "s", "both", "both">>)
@@ -67,21 +70,23 @@ RandQuery ==
   \E st0 \in {[fn |-> fn, field |-> fld, lo |-> lo, hi |-> hi2, pred |-> PickSeq(PredBag),
           interval |-> iv, offset |-> off, group |-> PickSeq(GroupBag), fill |-> FillFor(fld, iv),
           desc |-> PickSeq(<<FALSE, FALSE, TRUE>>),
-          limit |-> PickSeq(<<0, 0, 0, 1, 2, 3>>), offrows |-> PickSeq(<<0, 0, 1, 2>>),
+          limit |-> IF fn = "raw" THEN PickSeq(<<0, 1, 2, 2, 3>>) ELSE PickSeq(<<0, 0, 0, 1, 2, 3>>),
+          offrows |-> IF fn = "raw" THEN PickSeq(<<0, 1, 1, 2>>) ELSE PickSeq(<<0, 0, 1, 2>>),
           slimit |-> PickSeq(<<0, 0, 0, 0, 0, 0, 1, 2>>), soffset |-> PickSeq(<<0, 0, 0, 0, 0, 1>>)]} :
   GQuery([st0 EXCEPT !.soffset = IF st0.slimit = 0 THEN 0 ELSE @, !.offrows = IF st0.limit = 0 THEN 0 ELSE @])
 
-Kinds == << "w", "w", "w", "rw", "snap", "snap", "compact", "q", "q", "q", "q", "q" >>
+Kinds == << "w", "w", "tw", "rw", "snap", "snap", "compact", "q", "q", "q", "q", "q" >>
 
 GStep(kind) ==
   CASE kind = "w" \/ data = {} -> (\E b0 \in {RawBatch} : \E b \in {Dedup(b0)} : GWrite(b))
     [] kind = "rw"             -> (\E b0 \in {RewriteBatch} : \E b \in {Dedup(b0)} : GWrite(b))
+    [] kind = "tw"             -> (\E t \in {Pick(Time)} : \E b \in {TieBatch(t)} : GWrite(b))
     [] kind = "snap"           -> IF cache # {} THEN GSnapshot ELSE RandQuery
     [] kind = "compact"        -> IF Len(files) >= 2 THEN GCompact ELSE IF cache # {} THEN GSnapshot ELSE RandQuery
     [] OTHER                   -> RandQuery
 
 \* the first steps are writes, so that most statements see some data
-GNext == Len(hist) < GenLen /\ \E kind \in {IF Len(hist) < 3 THEN "w" ELSE PickSeq(Kinds)} : GStep(kind)
+GNext == Len(hist) < GenLen /\ \E kind \in {IF Len(hist) < 2 THEN "w" ELSE IF Len(hist) = 2 THEN "tw" ELSE PickSeq(Kinds)} : GStep(kind)
 GInit == Init /\ hist = <<>>
 GSpec == GInit /\ [][GNext]_gvars
 
